@@ -252,6 +252,28 @@ def run(ck, prog, ctx):
                                 is_pos = (sb_, tg_) in pe_
                                 if (ct.callee.method == "is_none") == is_pos and verdict is not False:
                                     edges.setdefault("offset==len", []).append((sb_, tg_))
+        # splitter form: the decoder asks ONE crate-private function to cut the whole input into its length-prefixed sections (`sections(&bytes[..]) ->
+        # Result<Vec<&[u8]>>`) and matches their number against the version.  Consumed == length is then the splitter's business: each of its
+        # `Ok(..)` results stands on the true edge of an emptiness test of what is left
+        splitter = None
+        for cbi, ct in b.calls():
+            hb = prog.bodies.get(ct.callee.res or "")
+            if hb is not None and hb.kind in ("Fn", "AssocFn") and not hb.exported and re.search(r"Result<(std::vec::)?Vec<(&.*\[u8\]|parser::binary::Bytes)", str(hb.locals[0].get("s", ""))):
+                splitter = (cbi, ct, hb)
+        if splitter is not None and name == "Ontology::from_bytes":
+            from engines import positive_edges as _pes
+            cbi, ct, hb = splitter
+            oks = [bi_ for bi_ in sorted(hb.reach) for st_ in hb.blocks[bi_].stmts if st_.k == "assign" and st_.place.is_local() and st_.place.local == 0 and st_.rv["k"] == "agg" and st_.rv.get("variant") == "Ok"]
+            empt = [e_ for ebi, et in hb.calls() if et.callee.method == "is_empty" and et.args for e_ in _pes(hb, pvn, ebi)]
+            from engines import zero_test_edges as _zte
+            for z in _zte(hb, pvn, lambda at_: any(a[0] == "call" and re.search(r"::len$", a[1]) for a in at_)):
+                empt += z["zero_edges"]
+            good = bool(oks) and all(any(hb.edge_dominates(e_, bi_) or e_[1] == bi_ for e_ in empt) for bi_ in oks)
+            ck.ob("DOM", "%s/splitter/%s" % (name, hb.short), good, "%s cuts the input into sections with %s, which answers Ok %s" % (name, hb.short, "only when nothing is left behind the last section" if good else "WITHOUT testing that nothing is left: bytes behind the last complete section (fewer than a length prefix) are accepted"), where=hb.where())
+            for lab_ in ("success", "sections"):
+                ck.undecided("DOM", "%s/%s/by-splitter" % (name, lab_), "%s matches the number of sections %s returned against the version: the offset-based rules (consumed == length per success value, version-gated section reads) do not apply to this form" % (name, hb.short), where=b.where(ct.line))
+            ctx.setdefault("c08_splitter", True)
+            continue
         succ = success_sites(b)
         if not succ:
             ck.undecided("DOM", name + "/success", "no success value recognised", where=b.where())
@@ -300,6 +322,9 @@ def run(ck, prog, ctx):
 
     # ------------------------------------------------------------------ DISPATCH: version-gated sections
     fb = prog.body(codec.ONT + "from_bytes")
+    if fb is not None and ctx.get("c08_splitter"):
+        ck.undecided("DISPATCH", "sections/by-splitter", "from_bytes matches the sections a splitter returned against the version with slice patterns: which section exists for which version is decided by their number, not by version guards around the reads", where=fb.where())
+        fb = None
     if fb is not None:
         guards = codec.version_guards(prog, pvn, fb)
         gated = {}
